@@ -101,7 +101,7 @@ func runCanaries(u *Universe, pc *PropertyCheck, c *Check, verif string) {
 }
 
 // canaryWorkers: variants analysed concurrently (each holds its own SSA program of mq and its imports).
-const canaryWorkers = 6
+const canaryWorkers = 8
 
 func runOne(u *Universe, pc *PropertyCheck, cn Canary, base Source, prefix string) CanaryResult {
 	res := CanaryResult{Name: cn.Name, Rule: cn.Rule, Expect: "fires"}
